@@ -113,7 +113,7 @@ var kinds = []kind{
 		Elapsed: 1500 * time.Microsecond, XElapsed: "1.5",
 		Result: func() *filtering.Result { return &filtering.Result{} },
 		Answer: reply("example.org.", dns.TypeA, dns.RcodeSuccess, false, "example.org. 300 IN A 1.2.3.4"),
-		XName: "example.org", XType: "A", XClass: "IN", XReason: "NotFilteredNotFound",
+		XName:  "example.org", XType: "A", XClass: "IN", XReason: "NotFilteredNotFound",
 		XStatus: "NOERROR", XAnswer: []ans{{"A", "1.2.3.4", 300}},
 	},
 	{ // 1
@@ -236,7 +236,7 @@ var kinds = []kind{
 		Answer: reply("rw.example.", dns.TypeA, dns.RcodeSuccess, false, "rw.example. 10 IN A 1.2.3.4", "rw.example. 10 IN A 1.2.3.5"),
 		Orig:   reply("rw.example.", dns.TypeA, dns.RcodeSuccess, false, "rw.example. 3600 IN A 9.9.9.9"),
 		XName:  "rw.example", XType: "A", XClass: "IN", XReason: "RewriteRule",
-		XRules: []expRule{{5, "||rw.example^$dnsrewrite=1.2.3.4"}, {5, "||rw.example^$dnsrewrite=1.2.3.5"}},
+		XRules:  []expRule{{5, "||rw.example^$dnsrewrite=1.2.3.4"}, {5, "||rw.example^$dnsrewrite=1.2.3.5"}},
 		XStatus: "NOERROR", XAnswer: []ans{{"A", "1.2.3.4", 10}, {"A", "1.2.3.5", 10}}, XOrig: []ans{{"A", "9.9.9.9", 3600}},
 	},
 	{ // 11
@@ -252,8 +252,10 @@ var kinds = []kind{
 		Name: "invalid-no-answer", QName: "version.bind.", QType: dns.TypeTXT, QClass: dns.ClassCHAOS,
 		IP: "10.0.0.1", MaskedIP: "10.0.0.0", Proto: querylog.ClientProtoPlain,
 		Elapsed: time.Microsecond, XElapsed: "0.001",
-		Result: func() *filtering.Result { return &filtering.Result{IsFiltered: true, Reason: filtering.FilteredInvalid} },
-		XName:  "version.bind", XType: "TXT", XClass: "CH", XReason: "FilteredInvalid", XFiltered: true,
+		Result: func() *filtering.Result {
+			return &filtering.Result{IsFiltered: true, Reason: filtering.FilteredInvalid}
+		},
+		XName: "version.bind", XType: "TXT", XClass: "CH", XReason: "FilteredInvalid", XFiltered: true,
 	},
 	{ // 13
 		Name: "rewritten-rule-nxdomain", QName: "gone.example.", QType: dns.TypeA, QClass: dns.ClassINET,
